@@ -405,6 +405,14 @@ def exits_ok(ctx):
                 out.append(Inst("EXITS-OK", "handle_message:disconnect-test-after-every-write", not skips, hb.site(g[0]),
                                 "Ok exits of the fire-and-forget arm reachable after the write without passing the DISCONNECT test: %s" % ([hb.site(b_) for b_ in skips] or "none"),
                                 "whenever the user's DISCONNECT has been written, run() is told to stop"))
+            if g is not None and stop_exits:
+                # ... and the DISCONNECT test alone decides: once the packet type is DISCONNECT no continue-exit is reachable
+                # (the stop must not additionally depend on whether the caller still listens)
+                reach_t = hb.reachable_from(g[1])
+                leak = [x for x in cont_exits if x["bb"] in reach_t]
+                out.append(Inst("EXITS-OK", "handle_message:disconnect-alone-decides", not leak, hb.site(g[0]),
+                                "continue-exits reachable after the packet type test has identified a DISCONNECT: %s" % ([hb.site(x["bb"]) for x in leak] or "none"),
+                                "a written DISCONNECT always stops run(), whatever else is true"))
         # between the stop edge and run's return nothing is written
         reach = run.reachable_from(e["bb"])
         out.append(Inst("EXITS-OK", "run:ok-exit-via-%s" % helper, True, run.site(e["bb"]), "Ok(()) exit of run controlled by the stop signal %s of %s" % (sig, helper), ""))
